@@ -104,6 +104,8 @@ func runC04(c *Check, a *Analysis) {
 	sc := siteCounter{}
 	// a push under a wrong sequence number answers somebody else's request a second time
 	ruleStreamCtxStable(c, a, "R-STREAM-CTX-STABLE")
+	ruleHeaderFresh(c, a, "R-HEADER-FRESH")
+	ruleResetClean(c, a, "R-RESET-CLEAN")
 
 	// ---- R-ONE-SERVE
 	c.Rule("R-ONE-SERVE", "each successful Messages.ReadMessage in a server loop leads to exactly one ServeRequest (inline or one scheduled closure) before the next read or the return", 4)
